@@ -1111,7 +1111,16 @@ def _shaping(case, ctx, rnd, opts, chars, S0, S1, cmp_bytes, sub_bytes, orig_ord
     import unicodedata
     oset = set(orig_order)
     mirrored = {c for c in chars if not H.is_private(c) and unicodedata.mirrored(chr(c))}
+    dropped_gsub = gsub_tags - kept
     for f, script, lang, direction, loc in configs:
+        if dropped_gsub and script.strip() not in ("DFLT", "latn", "cyrl", "grek"):
+            # HarfBuzz's complex shapers build their plan (stages and pauses) from the features the FONT HAS, not
+            # from those the caller enables -- e.g. the Arabic shaper inserts a pause between rclt and calt only when
+            # the font has no rclt -- so with a requested feature drop the two fonts are shaped under different plans
+            # even with the dropped feature disabled: behaviour that depends on a feature being present (DESIGN 3.5)
+            ctx.note("guard: complex-shaper plan depends on dropped GSUB features (%s)" % script.strip())
+            ctx.skip("guard: complex shaper and GSUB features dropped on request, shaping config not judged")
+            continue
         ha = H.HB(cmp_bytes, loc)
         hb_ = H.HB(sub_bytes, loc)
         has_a = (ha.face.has_layout_substitution, ha.face.has_layout_positioning, ha.face.has_layout_glyph_classes)
